@@ -221,7 +221,7 @@ theorem acked_after (lines css : List (List Nat)) (j k : Nat) (hj : j ≤ lines.
 /-! ### the reader -/
 
 theorem readLinesAux_line (l rest : List Nat) (h : 10 ∉ l) :
-    ∀ cur, readLinesAux (l ++ 10 :: rest) cur = (cur ++ l) :: readLinesAux rest [] := by
+    ∀ cur, readLinesAux (l ++ 10 :: rest) cur = (cur.reverse ++ l) :: readLinesAux rest [] := by
   induction l with
   | nil => intro cur; simp [readLinesAux]
   | cons c l ih =>
